@@ -10,3 +10,4 @@ import SJ.Props.C11
 #print axioms SJ.Props.C11.c11_earliest_ignored
 #print axioms SJ.Props.C11.c11_earliest_str_ap
 #print axioms SJ.Props.C11.c11_earliest_grammar
+#print axioms SJ.Props.C11.c11_sideOK_needed
